@@ -76,7 +76,7 @@ def check(rep, F, rule='FIXED-POINT'):
         pe = TB.PathEnum(F, fn, max_paths=400, cut_loops=True)
         paths = pe.run()
     except Undecided as e:
-        rep.undecided(rule, fn.key + ':scale-bookkeeping', str(e), fn.where())
+        rep.undecided_anchor(rule, fn.key + ':scale-bookkeeping', str(e), fn.where())
         return 0
     scale, target = {('param', 2): 1}, {('param', 3): 1}
     cells = {}
@@ -216,7 +216,7 @@ def check_no_integer(rep, F, rule='FIXED-POINT'):
         pe = TB.PathEnum(F, fn, max_paths=600, cut_loops=True)
         paths = pe.run()
     except Undecided as e:
-        rep.undecided(rule, fn.key + ':layout', str(e), fn.where())
+        rep.undecided_anchor(rule, fn.key + ':layout', str(e), fn.where())
         return 0
     scale, target = {('param', 2): 1}, {('param', 3): 1}
     L0 = {('sym', 'len0'): 1}
